@@ -1,0 +1,17 @@
+//go:build verif
+
+// Verification hooks (build tag verif). Not compiled by default.
+
+package server
+
+import "net/http"
+
+// VerifHandler get the http handler (middleware chain) created by Start
+func (s *server) VerifHandler() http.Handler {
+	s.mutex.RLock()
+	defer s.mutex.RUnlock()
+	if s.e == nil {
+		return nil
+	}
+	return s.e
+}
